@@ -145,6 +145,9 @@ Qed.
 Lemma ival32_fin x s m e : decode F32 x = FFin s m e -> ival32 x = sm s m * 2 ^ (e + 149).
 Proof. unfold ival32. now intros ->. Qed.
 
+Lemma pow2_spec k : 0 <= k -> pow2 k = 2 ^ k.
+Proof. intros H. unfold pow2. rewrite Z.shiftl_1_l. reflexivity. Qed.
+
 Lemma pow2_pos k : 0 <= k -> 0 < 2 ^ k.
 Proof. intros. apply Z.pow_pos_nonneg; lia. Qed.
 
@@ -157,6 +160,7 @@ Proof.
   pose proof (decode32_fin _ _ _ _ Wy Dy) as [Hm2 He2].
   rewrite (ival32_fin _ _ _ _ Dx), (ival32_fin _ _ _ _ Dy).
   unfold fcompare. rewrite Dx, Dy.
+  rewrite !pow2_spec by lia.
   set (e := Z.min e1 e2).
   set (a := sm s1 m1 * 2 ^ (e1 - e)). set (b := sm s2 m2 * 2 ^ (e2 - e)).
   assert (Ha : sm s1 m1 * 2 ^ (e1 + 149) = a * 2 ^ (e + 149)).
